@@ -72,7 +72,8 @@ EXTRA = dict(
         "between two fields if it is), WatchFile.from_lines returns exactly the version, the global options in file order "
         "and the entries that were written, strict or not. dump() of that object is the normal form (version line, one opts "
         "line, one line per entry, quotes exactly when an option contains a blank); parsing the dump gives an equal "
-        "WatchFile and dumping again the identical text. Without a version line as first logical line from_lines raises "
+        "WatchFile and dumping again the identical text (as long as no list of options holds both an option with a '\"' and one with a "
+        "blank: the format cannot express that). Without a version line as first logical line from_lines raises "
         "MissingVersion (None when there is no logical line); an opts= without options, an unterminated quote or a "
         "non-numeric version raise ValueError; a file ending in a continuation raises WatchFileFormatError when strict and "
         "warns otherwise. Every WatchFile / Watch owns its lists: a call changes the object it is applied to and no other "
@@ -416,14 +417,16 @@ def mutate_result(wf):
     wf.version = -7
 
 
-def check_case(v, conc, nl, kind, known, probes=True, keep=None):
-    """one concretization of one CASE line -> None or a message.  keep: dict carrying the previous case's live object"""
+def check_case(v, conc, nl, kind, known, probes=True, keep=None, light=None):
+    """one concretization of one CASE line -> None or a message.  keep: dict carrying the previous case's live object.
+    light = True / False: only the strict / the non-strict call, no run without version line (sampled concretizations
+    of the thorough tier)"""
     exp = conc_expected(conc, v["exp"])
     phys = phys_lines(conc, v["lines"], nl)
     what = "watch file %s" % show_text(phys)
     f1 = set(x - 1 for x in v["f1"])
     results = []
-    for strict in (False, True):
+    for strict in ((False, True) if light is None else (light,)):
         ob, wf = run_parse(phys, strict, kind, want_obj=True)
         if not same(ob, exp):
             if _is_blank_leak(exp, ob, f1):
@@ -439,7 +442,9 @@ def check_case(v, conc, nl, kind, known, probes=True, keep=None):
         return "%s: dump() writes %s, specification says %s" % (what, show_text(text), show_text(want))
     # parse(dump) == wf, dump(parse(dump)) == dump
     ob2, wf2 = run_parse(text.splitlines(True), True, "stringio", want_obj=True)
-    if not same(ob2, exp):
+    if v["qc"]:
+        pass            # a list of options with a '"' and a blank: cannot be written (outside RoundTrip, see WatchFile.tla)
+    elif not same(ob2, exp):
         if v["pp"] and _is_nested_paren(exp, ob2):
             known.hit("X02-nested-paren-roundtrip", "%s -> dump %s -> %s" % (what, show_text(text), show_obs(ob2)))
         elif _is_blank_leak(exp, ob2, set(k for k, e in enumerate(exp["es"]) if _dump_quotes(e))):
@@ -450,6 +455,8 @@ def check_case(v, conc, nl, kind, known, probes=True, keep=None):
         text2 = run_dump(wf2)
         if text2 != text:
             return "%s: dumping the re-read dump gives %s instead of %s" % (what, show_text(text2), show_text(text))
+    if light is not None:
+        return None
     # without the version line
     nov = phys[:v["vpos"] - 1] + phys[v["vpos"]:]
     ob3 = run_parse(nov, False, kind)
@@ -564,7 +571,9 @@ def check_scaled(v, conc, nl, kind, known):
         if text != want:
             return "%s: dump() writes %s, specification says %s" % (what, show_text(text), show_text(want))
     ob2, wf2 = run_parse(text.splitlines(True), True, "stringio", want_obj=True)
-    if not same(ob2, exp):
+    if v["qc"]:
+        pass
+    elif not same(ob2, exp):
         if v["pp"] and _is_nested_paren(exp, ob2):
             known.hit("X02-nested-paren-roundtrip", "%s" % what)
         elif _is_blank_leak(exp, ob2, set(k for k, e in enumerate(exp["es"]) if _dump_quotes(e))):
@@ -1256,8 +1265,10 @@ def replay_emission(ctx, raw_paths, known, quick, stats):
         if tag == "CASE":
             stats["cases"] += 1
             stats["zone:" + v["zone"]] = stats.get("zone:" + v["zone"], 0) + 1
-            plans = [(CANON, "nl", "stringio")]
-            nrep = 2 if (not quick and h % 3 == 0) else 1
+            # quick: the canonical form and one sampled concretization per case; thorough (30 x the cases): one of the two,
+            # both for every 7th case
+            plans = [(CANON, "nl", "stringio")] if quick or h % 3 == 0 or h % 7 == 0 else []
+            nrep = 1 if quick or h % 3 != 0 or h % 7 == 0 else 0
             for rep in range(nrep):
                 conc = hc.choice(concs["stress" if (h >> 3) % 2 == rep else "real"])
                 nl = hc.choice(NLS) if hc.random() < 0.6 else "nl"
@@ -1274,10 +1285,12 @@ def replay_emission(ctx, raw_paths, known, quick, stats):
                 ctx.case_seen(("zone", h), True)
                 continue
             for k, (conc, nl, kind) in enumerate(plans):
-                msg = check_case(v, conc, nl, kind, known, probes=(k == 0), keep=keep if k == 0 else None)
-                stats["real_calls"] += 8
+                canon = conc is CANON
+                light = None if quick or canon else bool((h >> 5) % 2)
+                msg = check_case(v, conc, nl, kind, known, probes=canon, keep=keep if canon else None, light=light)
+                stats["real_calls"] += 8 if light is None else 4
                 if msg:
-                    ctx.violation({"kind": "case", "v": v, "conc": conc.to_json(), "nl": nl, "src": kind, "probes": k == 0}, msg)
+                    ctx.violation({"kind": "case", "v": v, "conc": conc.to_json(), "nl": nl, "src": kind, "probes": canon, "light": light}, msg)
                     break
             if h % scale_mod == 0 and v["n"] >= 1 and not ctx.violations:
                 hs = HashChoice((h + 31) ^ (ctx.seed * 69069))
@@ -1298,12 +1311,14 @@ def replay_emission(ctx, raw_paths, known, quick, stats):
                                   "[size stress: logical lines as runs %s] %s" % (runs, msg))
             ctx.case_seen(("case", h), v["n"] > 0)
             if v["n"] >= 2 and len(v["lines"]) >= 5 and h % 997 < 2:
-                conc = plans[-1][0]
+                conc = plans[-1][0] if plans else CANON
                 samples[("a", h)] = "CASE lines=%s -> %s; e.g. %s" % (json.dumps(v["lines"], separators=(",", ":")), json.dumps(v["exp"], separators=(",", ":"))[:300],
                                                                      show_text(phys_lines(conc, v["lines"], "nl")))
         elif tag == "CBAD":
             stats["bad"] += 1
             stats["bad:" + v["kind"]] = stats.get("bad:" + v["kind"], 0) + 1
+            if not quick and h % 4:
+                continue
             for rep in ((h >> 2) % 2,):
                 conc = CANON if rep == 0 else hc.choice(concs["real"] + concs["stress"][:8])
                 nl = hc.choice(NLS) if rep else "nl"
@@ -1439,7 +1454,7 @@ def run(ctx):
     known = Known()
     stats = {"cases": 0, "bad": 0, "xcases": 0, "scaled": 0, "scaled_max_lines": 0, "real_calls": 0, "runs": {}}
     cfgs = ["WatchFile_quick_layout.cfg", "WatchFile_quick_seq.cfg"] if quick else \
-           ["WatchFile_layout.cfg", "WatchFile_cut2.cfg", "WatchFile_pairs.cfg", "WatchFile_seq3.cfg", "WatchFile_gaps.cfg"]
+           ["WatchFile_layout.cfg", "WatchFile_cut2.cfg", "WatchFile_quick_seq.cfg", "WatchFile_pairs.cfg", "WatchFile_seq3.cfg", "WatchFile_gaps.cfg"]
     ctx.extra["model_constants"] = {c: {k: x for k, x in cfg_constants(c).items() if k in ("MaxItems", "ItemMode", "LayoutMode", "GapMode", "VFormMode")}
                                     for c in cfgs}
     ctx.assumptions += [
@@ -1490,7 +1505,7 @@ def replay(ctx, case):
     if kind in ("case", "scaled", "bad"):
         conc = Conc.from_json(case["conc"])
         if kind == "case":
-            return check_case(case["v"], conc, case["nl"], case["src"], known, probes=case.get("probes", True), keep={})
+            return check_case(case["v"], conc, case["nl"], case["src"], known, probes=case.get("probes", True), keep={}, light=case.get("light"))
         if kind == "scaled":
             return check_scaled(scale_case(case["v"], case["runs"]), conc, case["nl"], case["src"], known)
         return check_bad(case["v"], conc, case["nl"], case["src"], known)
